@@ -223,9 +223,16 @@ func (w *World) Exec(s *Step) {
 		w.Cl.ExpireFor(s.Client)
 		return
 	case "sleep": // real time passes (tickers fire) and the virtual clock follows
-		time.Sleep(time.Duration(s.Ms) * time.Millisecond)
-		if w.Cl.Clock != nil {
-			w.Cl.Clock.Advance(time.Duration(s.Ms) * time.Millisecond)
+		// in slices of 5 ms, so that the virtual clock never jumps by more than a fraction of a heart-beat interval
+		for left := s.Ms; left > 0; left -= 5 {
+			d := int64(5)
+			if left < d {
+				d = left
+			}
+			time.Sleep(time.Duration(d) * time.Millisecond)
+			if w.Cl.Clock != nil {
+				w.Cl.Clock.Advance(time.Duration(d) * time.Millisecond)
+			}
 		}
 		return
 	case "split":
